@@ -3,6 +3,7 @@ import Frugal.Proofs.DecodeRefine
 import Frugal.Proofs.ViewsLemmas
 import Frugal.Props.Inst.Params
 import Frugal.Props.Inst.F_skeleton_decoder
+import Frugal.Props.Inst.F_skeleton_descTable
 namespace Frugal.C14
 open Frugal
 /-- a zero-length value never references the input buffer, nocopy or not -/
@@ -67,5 +68,13 @@ theorem base_never_views (S : Schema) (inp : Bytes) (k : Kind) (off : Nat) (s : 
     (Decode.lean), written from exactly this control structure of the code (regenerated fingerprint) -/
 theorem decoder_model_written_from_this_code : Generated.facts.decoderSkeleton = Skeleton.decoder :=
   Instances.skeleton_decoder
+
+/-- the schema the theorems quantify over reaches the codec through the descriptor tables (field index
+    by id, required ids, offsets, per-field flags and fixed sizes, the type node's tag / size / alignment /
+    element nodes): the declarations `structDesc`, `tField`, `tType` and the functions that fill them in
+    (`fromDefsFields`, `fromDefsField`, `GetField`, `newTType`) are, as full text, those the model and the
+    correspondence runs were validated against (regenerated fingerprint) -/
+theorem descriptor_tables_built_as_modelled : Generated.facts.descTableSkeleton = Skeleton.descTable :=
+  Instances.skeleton_descTable
 
 end Frugal.C14
